@@ -5607,6 +5607,9 @@ def format_float8(value):
             field = f"{value:8.2f}"
         elif value < 1000000.0:
             field = f"{value:8.1f}"
+        elif value >= 9999999.5:
+            field = _format_scientific8(value)
+            return field
         else:
             field = f"{value:8.1f}"
             if field.index(".") < 8:
@@ -5777,6 +5780,9 @@ def format_float16(value):
             field = f"{value:16.2f}"
         elif value < 100000000000000.0:
             field = f"{value:16.1f}"
+        elif value >= 999999999999999.5:
+            field = _format_scientific16(value)
+            return field
         else:
             field = f"{value:16.1f}"
             if field.index(".") < 16:
